@@ -109,7 +109,11 @@ type c17DLog struct {
 	status   int // loglist3.LogStatus numbering
 	interval *loglist3.TemporalInterval
 	rootsErr bool  // GetAcceptedRoots fails: the distributor has no root entry for the log
-	roots    []int // indices into c17PKI()
+	roots    []int // indices into c17PKI(): the log's CURRENT answer (the last refresh sees this)
+	// history: what the log answered to the FIRST refresh when the scenario refreshes twice (nil: same as roots)
+	firstRoots []int
+	hasFirst   bool
+	junk       bool // the current answer also carries an entry that does not parse as a certificate
 	script   c17Script
 }
 
@@ -163,8 +167,10 @@ func c17LogList(logs []*c17DLog) *loglist3.LogList {
 
 // scripted log client
 type c17Client struct {
-	l   *c17DLog
-	sub *c17Submitter
+	l     *c17DLog
+	sub   *c17Submitter
+	mu    sync.Mutex
+	calls int // get-roots calls answered by this client
 }
 
 func (c *c17Client) AddChain(ctx context.Context, chain []ct.ASN1Cert) (*ct.SignedCertificateTimestamp, error) {
@@ -177,9 +183,20 @@ func (c *c17Client) GetAcceptedRoots(ctx context.Context) ([]ct.ASN1Cert, error)
 	if c.l.rootsErr {
 		return nil, errors.New("scripted get-roots failure")
 	}
+	c.mu.Lock()
+	c.calls++
+	first := c.calls == 1 && c.l.hasFirst
+	c.mu.Unlock()
 	var out []ct.ASN1Cert
-	for _, r := range c.l.roots {
+	roots := c.l.roots
+	if first {
+		roots = c.l.firstRoots
+	}
+	for _, r := range roots {
 		out = append(out, ct.ASN1Cert{Data: c17PKI()[r].der})
+	}
+	if c.l.junk && !first {
+		out = append(out, ct.ASN1Cert{Data: []byte("invalid000")})
 	}
 	return out, nil
 }
@@ -190,7 +207,7 @@ func c17Builder(logs []*c17DLog, sub *c17Submitter) LogClientBuilder {
 		by[l.url] = l
 	}
 	return func(l *loglist3.Log) (client.AddLogClient, error) {
-		return &c17Client{by[l.URL], sub}, nil
+		return &c17Client{l: by[l.URL], sub: sub}, nil
 	}
 }
 
@@ -208,6 +225,9 @@ type c17DistScenario struct {
 	logs     []*c17DLog
 	deadline time.Duration
 	pending  bool // loadPendingLogs
+	// histories
+	twoRefreshes bool       // RefreshRoots runs twice before the submission (logs with hasFirst answer differently the first time)
+	prevLogs     []*c17DLog // via a Proxy: this earlier version of the log list (same logs) is activated first, then `logs`
 }
 
 func c17Ns(t time.Time) int64 { return t.UnixNano() }
@@ -373,6 +393,38 @@ func c17GenDist(r *verifkit.Rand) *c17DistScenario {
 	if r.Intn(3) == 0 {
 		sc.deadline = time.Duration(c17Deadlines[r.Intn(len(c17Deadlines))]) * time.Millisecond
 	}
+	switch r.Intn(6) {
+	case 0:
+		// root history: two refreshes; by the second one some logs have dropped or swapped roots, some answers also carry an
+		// entry that does not parse (partial failure: the answer still replaces what was known)
+		sc.twoRefreshes = true
+		for _, l := range sc.logs {
+			if l.rootsErr || r.Intn(2) == 0 {
+				continue
+			}
+			l.hasFirst, l.firstRoots = true, []int{0, 1, 2}
+			if r.Intn(2) == 0 {
+				l.roots = []int{(sc.rootIdx + 1) % 3} // the chain's root is gone from this log
+			}
+			l.junk = r.Intn(2) == 0
+		}
+	case 1:
+		// log-list history through the Proxy: the same logs, all usable and without interval in the earlier version
+		for _, l := range sc.logs {
+			c := *l
+			c.status, c.interval = int(loglist3.UsableLogStatus), nil
+			sc.prevLogs = append(sc.prevLogs, &c)
+		}
+		if !sc.pending {
+			// make sure the refresh changes something: retire one log or close its interval before NotAfter
+			l := sc.logs[r.Intn(len(sc.logs))]
+			if r.Bool() {
+				l.status = int(loglist3.RetiredLogStatus)
+			} else {
+				l.interval = &loglist3.TemporalInterval{StartInclusive: sc.na.AddDate(-1, 0, 0), EndExclusive: sc.na}
+			}
+		}
+	}
 	return sc
 }
 
@@ -394,6 +446,9 @@ func c17DistSetup(sc *c17DistScenario, sub *c17Submitter) (*Distributor, error) 
 		return nil, err
 	}
 	d.RefreshRoots(context.Background())
+	if sc.twoRefreshes {
+		d.RefreshRoots(context.Background())
+	}
 	return d, nil
 }
 
@@ -521,11 +576,45 @@ func c17RunDist(sc *c17DistScenario) (*c17Result, string) {
 		for _, l := range sc.logs {
 			sub.scripts[l.url] = l.script
 		}
-		d, err := c17DistSetup(sc, sub)
-		if err != nil {
-			setupErr = err.Error()
-			return
+		type adder interface {
+			AddChain(context.Context, [][]byte, bool) ([]*AssignedSCT, error)
+			AddPreChain(context.Context, [][]byte, bool) ([]*AssignedSCT, error)
 		}
+		var d adder
+		if sc.prevLogs == nil {
+			dd, err := c17DistSetup(sc, sub)
+			if err != nil {
+				setupErr = err.Error()
+				return
+			}
+			d = dd
+		} else {
+			// two log-list versions through the Proxy: v1 is activated, roots are fetched, then the refresh delivers v2
+			pctx, pcancel := context.WithCancel(context.Background())
+			defer pcancel()
+			p := NewProxy(NewLogListManager(nil, nil), func(l *loglist3.LogList) (*Distributor, error) {
+				var opts []DistributorOption
+				if sc.disabled {
+					opts = append(opts, DisableRootCompatibilityCheckingDistributorOption{})
+				}
+				return NewDistributor(l, sc.policyOf(), c17Builder(sc.logs, sub), nil, opts...)
+			}, nil)
+			if err := p.restartDistributor(pctx, c17LogList(sc.prevLogs)); err != nil {
+				setupErr = err.Error()
+				return
+			}
+			time.Sleep(time.Second)
+			if err := p.restartDistributor(pctx, c17LogList(sc.logs)); err != nil {
+				setupErr = err.Error()
+				return
+			}
+			time.Sleep(time.Second) // the new distributor's first get-roots round
+			d = p
+		}
+		start = time.Now()
+		sub.mu.Lock()
+		sub.start = start
+		sub.mu.Unlock()
 		ctx, cancel := context.WithDeadline(context.Background(), start.Add(sc.deadline))
 		defer cancel()
 		res.panicked = verifkit.Guard(func() {
@@ -565,6 +654,12 @@ func c17DistCases(out *verifkit.Out, r *verifkit.Rand, n int) {
 		}
 		out.T(line, ans)
 		out.Count("mode:dist-" + sc.policy + "-" + strings.SplitN(ans, ":", 2)[0])
+		if sc.twoRefreshes {
+			out.Count("mode:dist-history-two-root-refreshes")
+		}
+		if sc.prevLogs != nil {
+			out.Count("mode:dist-history-two-log-list-versions-via-proxy")
+		}
 		c17DistOracle(out, tag, sc, res, line)
 		if it < 2 {
 			out.Sample(line)
